@@ -257,6 +257,9 @@ func (e *Executor) RunTask(ctx context.Context, call *Call) error {
 				return &errors.TaskRunError{TaskName: t.Task, Err: err}
 			}
 		}
+		if err := e.statusOnSuccess(t); err != nil {
+			e.Logger.VerboseErrf(logger.Yellow, "task: error recording status on success: %v\n", err)
+		}
 		e.Logger.VerboseErrf(logger.Magenta, "task: %q finished\n", call.Task)
 		return nil
 	})
